@@ -281,7 +281,7 @@ fn apply_perm(w: &CliWorld, t: &Trial) -> CliWorld {
 
 fn gen_world(seed: u64) -> CliWorld {
   let mut r = Rng::stream(seed, "world");
-  cli_world::gen_world(&mut r, &GenOpts { max_files: 8, allow_special: false, with_tests: true, fix_heavy: false, order_sensitive_rules: true, hard_links: false })
+  cli_world::gen_world(&mut r, &GenOpts { max_files: 8, allow_special: false, with_tests: true, fix_heavy: false, order_sensitive_rules: true, hard_links: false, injections: true })
 }
 
 fn verdict(w: &CliWorld, ct: &Trial, t: &Trial) -> Option<(String, String)> {
@@ -377,6 +377,9 @@ impl Simulation for C13Sim {
       if !recs.is_empty() {
         r.count("probe:worlds_with_findings");
       }
+    }
+    if w.injections > 0 {
+      r.count("probe:worlds_with_language_injections_in_sgconfig");
     }
     if c.fixed_tree.iter().any(|(p, b)| w.files.iter().any(|f| &f.path == p && &f.bytes() != b)) {
       r.count("probe:worlds_where_fixes_changed_files");
